@@ -18,6 +18,9 @@ def StrictOn {K : Type} [LT K] (n : Nat) (g : Nat → K) : Prop := ∀ i j, i < 
 
 variable {K : Type} [LinearOrder K]
 
+/-- `omega` after exposing structure projections. -/
+macro "somega" : tactic => `(tactic| first | omega | (simp only; omega) | (dsimp only; omega))
+
 theorem StrictOn.le {n : Nat} {g : Nat → K} (h : StrictOn n g) {i j : Nat} (hij : i ≤ j)
     (hj : j < n) : g i ≤ g j := by
   rcases Nat.lt_or_eq_of_le hij with h1 | h1
@@ -48,10 +51,10 @@ theorem descend_post (g : Nat → K) (x : K) (n : Nat) :
         by_cases h0 : x < g 0
         · simp only [h0, if_true]
         · simp only [h0, if_false]
-          refine ⟨hinc, by omega, not_lt.mp h0, Or.inr ⟨Nat.zero_le _, le_refl _, hx, Or.inr rfl⟩⟩
+          refine ⟨hinc, by omega, not_lt.mp h0, Or.inr ⟨Nat.zero_le _, le_refl _, hx, Or.inr trivial⟩⟩
       · simp only [hl, if_false]
         have ih := descend_post g x n fuel ⟨s.last - s.inc, s.last, s.inc + s.inc⟩
-          (by simp only; omega) (by simp only; omega) (by simp only; omega)
+          (by somega) (by somega) (by somega)
         cases hd : descend g x fuel ⟨s.last - s.inc, s.last, s.inc + s.inc⟩ with
         | none => rw [hd] at ih; exact ih
         | some s' =>
@@ -65,7 +68,7 @@ theorem descend_post (g : Nat → K) (x : K) (n : Nat) :
           · simp only at j2
             exact ⟨j1, by omega, j3, j4⟩
     · simp only [hx, if_false]
-      exact ⟨hinc, hn, (not_le.mp hx).le, Or.inl ⟨rfl, not_le.mp hx⟩⟩
+      exact ⟨hinc, hn, (not_le.mp hx).le, Or.inl ⟨trivial, not_le.mp hx⟩⟩
 
 /-- Post-condition of the upward search. -/
 theorem ascend_post (g : Nat → K) (x : K) (hb : Nat) :
@@ -85,10 +88,10 @@ theorem ascend_post (g : Nat → K) (x : K) (hb : Nat) :
         · simp only [ht, if_false]
           have hne : s.high ≠ hb := by
             intro e; rw [e] at hx; exact ht hx
-          exact ⟨le_refl _, hx.le, not_lt.mp ht, Or.inr (by simp only; omega)⟩
+          exact ⟨le_refl _, hx.le, not_lt.mp ht, Or.inr (by somega)⟩
       · simp only [hc, if_false]
         have ih := ascend_post g x hb fuel ⟨s.high, s.high + s.inc, s.inc + s.inc⟩
-          (by simp only; omega) (by simp only; omega) (by simp only; omega) (by simp only; exact hx.le)
+          (by somega) (by somega) (by somega) (by simp only; exact hx.le)
         cases hd : ascend g x hb fuel ⟨s.high, s.high + s.inc, s.inc + s.inc⟩ with
         | none => rw [hd] at ih; exact ih
         | some s' =>
@@ -99,7 +102,7 @@ theorem ascend_post (g : Nat → K) (x : K) (hb : Nat) :
           · subst he; simp only; omega
           · exact hlt
     · simp only [hx, if_false]
-      exact ⟨hh, hl, not_lt.mp hx, Or.inl rfl⟩
+      exact ⟨hh, hl, not_lt.mp hx, Or.inl trivial⟩
 
 /-- Post-condition of the bisection. -/
 theorem bisect_post (g : Nat → K) (x : K) :
@@ -128,7 +131,7 @@ theorem bisect_post (g : Nat → K) (x : K) :
           (not_lt.mp hx) hh
         refine ⟨a, fun _ => b hlow2, fun e => by omega⟩
     · simp only [h1, if_false]
-      refine ⟨hl, fun hlt => ?_, fun _ => rfl⟩
+      refine ⟨hl, fun hlt => ?_, fun _ => trivial⟩
       have : high = last + 1 := by omega
       subst this
       exact ⟨le_refl _, hh⟩
@@ -140,7 +143,7 @@ theorem bracket_post (g : Nat → K) (n : Nat) (hn : 2 ≤ n) (hg : StrictOn n g
     (bracket g n last x = (n - 1, Flag.above) ∧ g (n - 1) < x) ∨
     (∃ idx, bracket g n last x = (idx, Flag.inside) ∧ idx + 1 < n ∧ g idx ≤ x ∧ x ≤ g (idx + 1)) := by
   unfold bracket
-  have hd := descend_post g x n (last + 1) ⟨last, last + 1, 1⟩ (by simp only; omega) (le_refl _)
+  have hd := descend_post g x n (last + 1) ⟨last, last + 1, 1⟩ (by somega) (le_refl _)
     (by simp only; exact hlast)
   cases hdes : descend g x (last + 1) ⟨last, last + 1, 1⟩ with
   | none =>
@@ -158,7 +161,7 @@ theorem bracket_post (g : Nat → K) (n : Nat) (hn : 2 ≤ n) (hg : StrictOn n g
       · -- start index is the last node and x is above it
         have hl : last = n - 1 := by omega
         simp only [hclip, if_true]
-        have ha := ascend_post g x (n - 1) n ⟨last, n - 1, 1⟩ (by simp only; omega) (le_refl _)
+        have ha := ascend_post g x (n - 1) n ⟨last, n - 1, 1⟩ (by somega) (le_refl _)
           (le_refl _) (by simp only; exact hlt.le)
         cases hasc : ascend g x (n - 1) n ⟨last, n - 1, 1⟩ with
         | none => rw [hasc] at ha; exact Or.inr (Or.inl ⟨rfl, ha⟩)
@@ -170,8 +173,8 @@ theorem bracket_post (g : Nat → K) (n : Nat) (hn : 2 ≤ n) (hg : StrictOn n g
           rw [← hl] at hle
           exact absurd (lt_of_lt_of_le hlt a3) (not_lt.mpr hle)
       · simp only [hclip, if_false]
-        have ha := ascend_post g x (n - 1) n ⟨last, last + 1, 1⟩ (by simp only; omega) (le_refl _)
-          (by simp only; omega) (by simp only; exact hlt.le)
+        have ha := ascend_post g x (n - 1) n ⟨last, last + 1, 1⟩ (by somega) (le_refl _)
+          (by somega) (by simp only; exact hlt.le)
         cases hasc : ascend g x (n - 1) n ⟨last, last + 1, 1⟩ with
         | none => rw [hasc] at ha; exact Or.inr (Or.inl ⟨rfl, ha⟩)
         | some s' =>
